@@ -370,6 +370,56 @@ pub fn gen_control(rng: &mut Rng, sw: &Swarm, limit: usize) -> SpecMessage {
         total += l;
         avps.push(a);
     }
+    // coincidences between fields: two fixed-size AVPs of the same shape
+    // carrying the same value (Tx == Rx connect speed, minimum == maximum
+    // BPS, assigned ids equal), a header field equal to an AVP's value
+    let mut ids: Option<(u16, u16)> = None;
+    if !many && avps.len() >= 2 && rng.chance(1, 5) {
+        for _ in 0..rng.urange(1, 3) {
+            let i = rng.urange(1, avps.len() - 1);
+            let donor = avps[i].val.clone();
+            let fixed = matches!(donor, Val::U16(_) | Val::U32(_) | Val::U64(_) | Val::Mask(_) | Val::Fix4(_) | Val::Fix16(_));
+            if !fixed {
+                continue;
+            }
+            let same: Vec<usize> = (1..avps.len())
+                .filter(|&j| j != i && std::mem::discriminant(&avps[j].val) == std::mem::discriminant(&donor))
+                .collect();
+            if !same.is_empty() {
+                let j = *rng.pick(&same);
+                avps[j].val = donor.clone();
+            }
+            if let Val::U16(v) = donor {
+                ids = Some((v, if rng.bool() { v } else { rng.u16() }));
+            }
+        }
+    }
+    // sibling attributes carrying equal values
+    if !many && !avps.is_empty() && rng.chance(1, 6) {
+        const SIBLINGS: [(u16, u16); 8] = [(24, 38), (38, 24), (16, 17), (17, 16), (9, 14), (14, 9), (4, 18), (18, 4)];
+        let (a, b) = *rng.pick(&SIBLINGS);
+        if sw.kinds.contains(&a) && sw.kinds.contains(&b) {
+            let donor = match avps.iter().position(|x| x.attr == a && !x.is_hidden()) {
+                Some(i) => avps[i].clone(),
+                None => gen_avp_of(rng, sw, a),
+            };
+            if !donor.is_hidden() && total + 2 * encoded_len(&donor) <= limit {
+                if !avps.iter().any(|x| x.attr == a) {
+                    total += encoded_len(&donor);
+                    avps.push(donor.clone());
+                }
+                let sib = SpecAvp { attr: b, val: donor.val.clone() };
+                total += encoded_len(&sib);
+                match avps.iter().position(|x| x.attr == b && !x.is_hidden()) {
+                    Some(j) => {
+                        total -= encoded_len(&avps[j]);
+                        avps[j] = sib;
+                    }
+                    None => avps.push(sib),
+                }
+            }
+        }
+    }
     // the `length` member is ignored by the encoder: stale values of every
     // kind, biased to the ones a shortcut would compare against
     let length = match rng.below(10) {
@@ -380,12 +430,18 @@ pub fn gen_control(rng: &mut Rng, sw: &Swarm, limit: usize) -> SpecMessage {
         7 => rng.extreme(16) as u16,
         _ => rng.u16(),
     };
+    let (tunnel_id, session_id) = match ids {
+        Some(p) => p,
+        None => (num(rng, 16, sw.values) as u16, num(rng, 16, sw.values) as u16),
+    };
+    let ns = num(rng, 16, sw.values) as u16;
+    let nr = if rng.chance(1, 6) { ns } else { num(rng, 16, sw.values) as u16 };
     SpecMessage::Control {
         length,
-        tunnel_id: num(rng, 16, sw.values) as u16,
-        session_id: num(rng, 16, sw.values) as u16,
-        ns: num(rng, 16, sw.values) as u16,
-        nr: num(rng, 16, sw.values) as u16,
+        tunnel_id,
+        session_id,
+        ns,
+        nr,
         avps,
     }
 }
